@@ -5,6 +5,7 @@
 // described, prints a report on stdout and then serves commands on stdin.
 #define _GNU_SOURCE
 #include <errno.h>
+#include <link.h>
 #include <fcntl.h>
 #include <pthread.h>
 #include <sched.h>
@@ -489,6 +490,17 @@ int main(int argc, char **argv) {
   printf("sym spin_code_loop %lx\n", (unsigned long)spin_code_loop);
   printf("sym spin_code_end %lx\n", (unsigned long)spin_code_end);
   printf("sym nullsp_loop %lx\n", (unsigned long)nullsp_loop);
+  {
+    extern ElfW(Dyn) _DYNAMIC[];
+    printf("rdebug %d %lx %lx %lx\n", _r_debug.r_version, (unsigned long)_r_debug.r_brk, (unsigned long)_r_debug.r_ldbase, (unsigned long)_DYNAMIC);
+    for (struct link_map *m = _r_debug.r_map; m; m = m->l_next) {
+      printf("dso %lx %lx ", (unsigned long)m->l_addr, (unsigned long)m->l_ld);
+      const char *n = m->l_name ? m->l_name : "";
+      if (!*n) printf("-");
+      for (; *n; n++) printf("%02x", (unsigned char)*n);
+      printf("\n");
+    }
+  }
   printf("pid %d\n", getpid());
   // give parked/spinner threads a moment to reach their loops: they report tid
   // before entering asm; the harness additionally waits for stable state.
